@@ -43,9 +43,9 @@ def gen_solver_consts() -> str:
             raise T.TranslateError("unrecognised max_downgrade argument of a recursive compile_roots call")
     if len(decs) != 1:
         raise T.TranslateError(f"expected exactly one budget-spending compile_roots call (the walk-back loop), found {len(decs)}")
-    # compile-wide extras (perform_compile(extras=...)) are NOT modelled (the model's runs have extras=None); what is
-    # tied is the shape of the only place that uses them: they are merged into the edge reason exactly when the
-    # distribution just acquired comes from a SourceRepository
+    # compile-wide extras (perform_compile(extras=...)): the model merges them into the edge reason exactly when the
+    # distribution just acquired comes from a SourceRepository (Solver.compile_roots, dsource); the shape of that one
+    # condition is checked here, its behaviour by the 'srcextras' correspondence cases
     conds = [ast.unparse(n.test) for n in ast.walk(cr) if isinstance(n, ast.If) and "options.extras" in ast.unparse(n.test)]
     want = "reason is not None and options.extras and isinstance(metadata.origin, SourceRepository)"
     if conds != [want]:
